@@ -196,6 +196,19 @@ impl JwkStorage for StrongholdStorage {
   async fn delete(&self, key_id: &KeyId) -> KeyStorageResult<()> {
     let stronghold = self.get_stronghold().await;
     let client = get_client(&stronghold)?;
+    // `delete_secret` reports whether the vault could be cleaned up, not whether the record was there.
+    let location = Location::generic(
+      IDENTITY_VAULT_PATH.as_bytes().to_vec(),
+      key_id.to_string().as_bytes().to_vec(),
+    );
+    let exists = client.record_exists(&location).map_err(|err| {
+      KeyStorageError::new(KeyStorageErrorKind::Unspecified)
+        .with_custom_message("stronghold client error")
+        .with_source(err)
+    })?;
+    if !exists {
+      return Err(KeyStorageError::new(KeyStorageErrorKind::KeyNotFound));
+    }
     let deleted = client
       .vault(IDENTITY_VAULT_PATH.as_bytes())
       .delete_secret(key_id.to_string().as_bytes())
